@@ -15,7 +15,13 @@ func fnWatch(ctx *cmdContext, args map[string]any) (output respValue, err error)
 
 	ids := ctx.dsc.getIds(keyStrs...)
 	for idx, id := range ids {
-		ctx.cs.watches[watchKey{ds: ctx.dsc.ds, key: keyStrs[idx]}] = id
+		wk := watchKey{ds: ctx.dsc.ds, key: keyStrs[idx]}
+		if _, alreadyWatched := ctx.cs.watches[wk]; alreadyWatched {
+			// keep the version seen by the first WATCH: watching a key again must not
+			// forget a modification that happened in between
+			continue
+		}
+		ctx.cs.watches[wk] = id
 	}
 
 	output.data = rstrOK
